@@ -5,10 +5,11 @@
 -/
 import MenelausVerif.Driver.Core
 import MenelausVerif.Driver.Election
+import MenelausVerif.Driver.Lifecycle
 open MV.Driver
 
 def registry : List (List String → Option Machine) :=
-  [mkElection]
+  [mkElection, mkLifecycle]
 
 def mkMachine (ts : List String) : Option Machine :=
   registry.findSome? (fun f => f ts)
